@@ -561,7 +561,11 @@ fn run_leaves(st: &mut Stats) {
         }
     }
     // layer / base-layer
-    let cfg = "(defcfg)\n(defsrc a b c d)\n(deflayer base (switch ((layer nav)) x break ((layer base)) y break () z break) (layer-while-held nav) (layer-switch nav) (layer-switch base))\n(deflayer nav (switch ((base-layer nav)) x break ((base-layer base)) y break () z break) _ _ (layer-switch base))\n";
+    // under every transparent-resolution / delegate setting (the layer stack then has a different shape; the
+    // base layer is the one chosen by the last layer-switch in all of them)
+    for defcfg in ["(defcfg)", "(defcfg transparent-key-resolution to-base-layer)", "(defcfg delegate-to-first-layer yes)", "(defcfg transparent-key-resolution to-base-layer delegate-to-first-layer yes)", "(defcfg transparent-key-resolution layer-stack delegate-to-first-layer yes)"] {
+    let cfg_s = format!("{defcfg}\n(defsrc a b c d)\n(deflayer base (switch ((layer nav)) x break ((layer base)) y break () z break) (layer-while-held nav) (layer-switch nav) (layer-switch base))\n(deflayer nav (switch ((base-layer nav)) x break ((base-layer base)) y break () z break) _ _ (layer-switch base))\n");
+    let cfg = cfg_s.as_str();
     for (hist, want) in [
         (vec![Ev::P(kc("a")), Ev::T(3)], "Y"),                                                                       // base active
         (vec![Ev::P(kc("b")), Ev::T(2), Ev::P(kc("a")), Ev::T(3)], "Y"),                                             // nav held: a on nav asks base-layer: base -> y
@@ -577,13 +581,14 @@ fn run_leaves(st: &mut Stats) {
                 if last != want {
                     st.violation(Violation {
                         property: "C10".into(),
-                        signature: format!("layer::{}", crate::sim::hist_to_string(&hist)),
+                        signature: format!("layer::{defcfg}::{}", crate::sim::hist_to_string(&hist)),
                         what: format!("layer/base-layer check after [{}]: expected {want}, observed {last}", crate::sim::hist_to_string(&hist)),
                         detail: json!({"kind": "leaf", "cfg": cfg, "history": crate::sim::hist_to_string(&hist)}),
                     });
                 }
             }
         }
+    }
     }
     // (layer X) with several held layers: "the active layer" is the most recently activated layer
     // that is still held (config.adoc: layer / layer-while-held). b holds l1, c holds l2, d holds l3 on
